@@ -2,7 +2,7 @@
 # validate_seed.sh <ID> <X> : confirm a seeded change in a scratch worktree and keep it under /verif/seeded/<ID>-<X>/
 # (suite passes with the change; demo fails with it and passes without). Removes the worktree afterwards.
 ID=$1; X=$2
-SRC=/tmp/wt/$ID/_out/$X
+SRC=${SRC_ROOT:-/tmp/wt}/$ID/_out/$X
 W=/tmp/val_${ID}_$X
 export CARGO_NET_OFFLINE=true CARGO_TARGET_DIR=$W/target
 set -u
